@@ -33,6 +33,14 @@
 /* "old body word g_k/4 (if g_k is a word start below word index lim) has no high bit" */
 #define RR_NO_END_BELOW(lim) (((g_k & 3) == 0 && (g_k >> 2) < (size_t) (lim)) ==> !RR_HB(g_b))
 
+/* ghost-index case split: -DRR_GK_LOW: g_k < 64 (can be a header byte), -DRR_GK_HIGH: g_k >= 64 */
+#if defined(RR_GK_LOW)
+#define RR_GK_CASE (g_k < 64)
+#elif defined(RR_GK_HIGH)
+#define RR_GK_CASE (g_k >= 64)
+#else
+#define RR_GK_CASE (1)
+#endif
 #define RR_TTL_OK(t) ((t) >= 1 && (t) <= NNI_MAX_MAX_TTL)
 
 /* ghost equations binding the pre-state geometry of the body (used by the woven loop invariant) */
